@@ -387,6 +387,8 @@ pub struct Var {
     pub definition: Span,
     pub is_global: bool,
     pub kind: VarKind,
+    /// The `start` that the main file binds - the entry point of the program.
+    pub is_entry_point: bool,
 }
 
 /// Blob fields and enum variants are kept in hash maps. They're visited in
@@ -1096,6 +1098,7 @@ impl Resolver {
             definition: ident.span,
             kind,
             is_global: false,
+            is_entry_point: false,
         });
         id
     }
@@ -1109,6 +1112,7 @@ impl Resolver {
             definition: ident.span,
             kind,
             is_global: true,
+            is_entry_point: false,
         });
         id
     }
@@ -1267,12 +1271,18 @@ pub fn resolve<'a>(
             }
         }
     }
-    if resolver.lookup_global(0, "start").is_none() {
-        raise_resolution_error! {
+    match resolver.lookup_global(0, "start") {
+        // Other files may have a `start` of their own, this is the one the main file names.
+        Some(Name::Name(start)) => {
+            let start = *start;
+            resolver.variables[start].is_entry_point = true;
+        }
+        Some(Name::Namespace(..)) => {}
+        None => raise_resolution_error! {
             resolver,
             Span::zero(0),
             "Expected a start function in the main module - but couldn't find it"
-        }
+        },
     }
     Ok((resolver.variables, out))
 }
